@@ -108,6 +108,42 @@ def handleProblem (j : Json) : Except String Json := do
   pure (Json.mkObj [("res", sol (problemSolve Q N allS order)), ("many", sol (problemSolve Q N true order)),
                     ("pad", canonJson (padQ Q N))])
 
+/-- op "brute_method": `obj.solve_bruteforce(all_solutions)` as a method of an object in bookkeeping state `s`
+(the attributes `_solve_bruteforce` reads: type, stored terms, `num_binary_variables`, `_reverse_mapping`, and for
+PCBO / PCSO the recorded constraints): `Brute.methodPlain` for the eight unconstrained types, `Brute.methodCons` for the
+two constrained ones — the functions the entry-point theorems of `Qv/Props/C09.lean` are about (which free function
+each type calls is decided by `Brute.fnOfKind`, not by the harness).  Output shaped like op "brute". -/
+def handleBruteMethod (j : Json) : Except String Json := do
+  let κ ← j.getObjVal? "kind" >>= kindOfJson
+  let terms ← j.getObjVal? "terms" >>= polyOfJson
+  let book ← bookOfJson (j.getObjValD "book")
+  let allS ← j.getObjVal? "all" >>= Json.getBool?
+  let order ← match j.getObjVal? "order" with
+    | .ok o => natList o
+    | .error _ => pure ((keyLabels terms).toArray.qsort (· < ·)).toList
+  let cons ← match j.getObjVal? "cons_rec" with
+    | .ok (Json.arr a) => a.toList.mapM (fun t => do
+        let r ← t.getArrVal? 0 >>= Json.getStr?
+        let rel ← match r with
+          | "eq" => pure Rel.eq | "ne" => pure Rel.ne | "lt" => pure Rel.lt
+          | "le" => pure Rel.le | "gt" => pure Rel.gt | "ge" => pure Rel.ge
+          | _ => throw s!"bad relation {r}"
+        let P ← t.getArrVal? 1 >>= polyOfJson
+        pure (rel, P))
+    | _ => pure []
+  let s : Book.State := { kind := κ, terms := terms, constraints := cons,
+                          numVars := match book with | some b => b.n | none => 0,
+                          reverse := match book with | some b => b.rm | none => [] }
+  let run (a : Bool) : Json :=
+    let sol := if Book.hasCons κ then methodCons s a else methodPlain s a order
+    match sol, solve (fnOfKind κ) (ofState s) a (fun _ => true) order with
+    | .ok x, .ok o => Json.mkObj [("obj", Json.null), ("sol", solJson x), ("after", canonJson o.after),
+                                   ("after_order", polyJson o.after)]
+    | .ok x, .error _ => Json.mkObj [("obj", Json.null), ("sol", solJson x), ("after", canonJson terms),
+                                      ("after_order", polyJson terms)]
+    | .error e, _ => errJson e
+  pure (Json.mkObj [("res", run allS), ("alt", run (!allS))])
+
 def handlersC09 : List (String × (Lean.Json → Except String Lean.Json)) :=
-  [("brute", handleBrute), ("problem", handleProblem)]
+  [("brute", handleBrute), ("problem", handleProblem), ("brute_method", handleBruteMethod)]
 end Qv.Drv.C09
